@@ -228,6 +228,19 @@
                         out(r.matrix_coefficients != wm || r.color_primaries != wp || r.transfer_characteristics != wt,
                             format!("{}x{} {:?}/{:?}/{:?} -> {:?}/{:?}/{:?}, documented {:?}/{:?}/{:?}", w, h, mc, cp, tc, r.matrix_coefficients, r.color_primaries, r.transfer_characteristics, wm, wp, wt));
                     }
+                    "label480" => {
+                        // non-square sizes where the primaries guess depends on the orientation: label must describe the encoding (C09 budget: 3 codes at 8 bit)
+                        let mut worst = 0i32; let mut at = String::new();
+                        for (w, h) in [(1usize, 480usize), (480, 1), (4, 480), (4, 576), (2, 488)] {
+                            let c = YuvConfig { color_primaries: CP::Unspecified, ..cfg(8, false, MC::ST170M, 0, 0) };
+                            let px = vec![[0.1f32, 0.6, 0.3]; w * h];
+                            let o1 = Yuv::<u8>::try_from((LinearRgb::new(px.clone(), w, h).unwrap(), c)).unwrap();
+                            let o2 = Yuv::<u8>::try_from((LinearRgb::new(px, w, h).unwrap(), o1.config())).unwrap();
+                            let d = (0..3).map(|k| (i32::from(o1.data()[k].p(0, 0)) - i32::from(o2.data()[k].p(0, 0))).abs()).max().unwrap();
+                            if d > worst { worst = d; at = format!("{}x{} labelled {:?}", w, h, o1.config().color_primaries); }
+                        }
+                        out(worst > 3, format!("max difference between the output and its re-encoding under the stored config: {} codes ({})", worst, at));
+                    }
                     "rgbres" => {
                         let (cp, tc) = (CP_ALL[ix(&a[1])], TC_ALL[ix(&a[2])]);
                         let r = Rgb::new(vec![[0.25, 0.5, 0.75]], 1, 1, tc, cp).unwrap();
@@ -364,10 +377,11 @@
             // neutral yuv T bd full mc ycode | prim in|out cp gbits | curve idx | xyb gbits   (C16)
             "neutral" => {
                 match a[0].as_str() {
-                    "yuv" => {
+                    "yuv" | "yuvx" => {
                         let bd = a[2].parse::<u8>().unwrap(); let full = a[3] == "1"; let mc = MC_ALL[a[4].parse::<usize>().unwrap()];
                         let y = a[5].parse::<u16>().unwrap(); let mid = 1u16 << (bd - 1);
-                        let c = cfg(bd, full, mc, 0, 0);
+                        let mut c = cfg(bd, full, mc, 0, 0);
+                        if a[0] == "yuvx" { c.color_primaries = CP_ALL[ix(&a[6])]; }
                         let o = if a[1] == "u8" { Rgb::try_from(&Yuv::new(Frame { planes: [Plane::from_slice(&[y as u8], 1), Plane::from_slice(&[mid as u8], 1), Plane::from_slice(&[mid as u8], 1)] }, c).unwrap()).unwrap().data()[0] }
                             else { Rgb::try_from(&Yuv::new(Frame { planes: [Plane::from_slice(&[y], 1), Plane::from_slice(&[mid], 1), Plane::from_slice(&[mid], 1)] }, c).unwrap()).unwrap().data()[0] };
                         let k = 1u16 << (bd - 8);
